@@ -55,6 +55,8 @@ PROSE = ['The quick brown fox', 'warning: unused variable `x`', '  --> src/main.
          'tab\tseparated\tvalues', '   leading and trailing   ', '日本語のテキスト', 'emoji 😀 text', 'naïve café', '|/ graph', '* | 1234567 msg',
          '- dash start', '+ plus start', '-not a diff', '+not a diff', ' space start', '#!/bin/sh', '--', '++', '---', '+++', '@ at',
          '=====', '<<<<<<<', '>>>>>>>', 'commitment', 'different', 'Binaryfiles', '}{',
+         '\x1b[35msrc/x.rs\x1b[m\x1b[36m:\x1b[m\x1b[32m12\x1b[m\x1b[36m:\x1b[m coloured like a grep hit, but the caller is not grep',
+         '\x1b[35mMakefile\x1b[m\x1b[36m-\x1b[mcontext \x1b[1;31mmatch\x1b[m text', '\x1b[35mnotes\x1b[m\x1b[36m=\x1b[m\x1b[32m3\x1b[m\x1b[36m=\x1b[mheader',
          '1234567 fix the thing', 'abcdef0 (HEAD -> main, origin/main) Merge branch', 'deadbeef HEAD@{0}: commit: message', 'cafe babe and other hex words',
          '^1234567 (looks like a boundary commit but is prose)', 'fa11 (Ann 2020 1) not a blame line']
 
